@@ -76,7 +76,7 @@ var severity = map[int]int{clOK: 0, clValidation: 1, clClient: 2, clDeadline: 3,
 
 const (
 	baseOverrun    = 15 * time.Second // 5 x the server's request deadline (3 s) on an idle machine
-	memGrowthLimit = 768 << 20        // heap growth during one case
+	memGrowthLimit = 768 << 20        // growth of the LIVE heap (as marked by the GC cycles) during one case
 	memHardLimit   = 3 << 30
 	childRestart   = 1500 // cases per child (the memory datastore never frees models)
 )
@@ -158,9 +158,23 @@ func heapBytes() uint64 {
 	return s[0].Value.Uint64()
 }
 
+// live heap as of the last completed GC cycle: unlike the heap-objects gauge it does not count
+// garbage that simply has not been collected yet, so it does not depend on GC pacing
+func heapLive() uint64 {
+	s := []metrics.Sample{{Name: "/gc/heap/live:bytes"}}
+	metrics.Read(s)
+	if s[0].Value.Kind() != metrics.KindUint64 {
+		return heapBytes()
+	}
+	return s[0].Value.Uint64()
+}
+
 func (c *child) watch() {
 	for range c.sampler.C {
-		h := heapBytes()
+		h := heapLive()
+		if hb := heapBytes(); hb > memHardLimit {
+			h = hb
+		}
 		for {
 			p := c.peak.Load()
 			if h <= p || c.peak.CompareAndSwap(p, h) {
@@ -324,11 +338,11 @@ func (c *child) runCase(d caseDesc) caseResult {
 	b := g.build(c.fx, r, d.V)
 	buildMS := time.Since(tb).Milliseconds()
 	tg := time.Now()
-	if heapBytes() > 192<<20 {
+	if heapBytes() > 256<<20 {
 		runtime.GC()
 	}
 	gcMS := time.Since(tg).Milliseconds()
-	base := heapBytes()
+	base := heapLive()
 	c.peak.Store(base)
 	t0 := time.Now()
 	res := caseResult{Stats: b.stats}
@@ -409,7 +423,7 @@ func (c *child) runCase(d caseDesc) caseResult {
 	res.MS = time.Since(t0).Milliseconds()
 	res.BuildMS, res.GCMS = buildMS, gcMS
 	peak := c.peak.Load()
-	if h := heapBytes(); h > peak {
+	if h := heapLive(); h > peak {
 		peak = h
 	}
 	res.PeakMB = int64(peak >> 20)
